@@ -211,6 +211,21 @@ def defect_classes(pre, op):
                 if any(g.typ(y) == 'ServicePort' and s not in g.nb(y, 'connects', NS)
                        for i in ifs for (l, y) in g.peers(i)) or sub_peered_under(ifs):
                     out.append('strands')
+    if kind in ('remove_node', 'remove_facility', 'remove_switch', 'remove_component'):
+        # a service OWNED by the removed node / component carries service ports (peer() or connect_interface on a
+        # node- or component-level service): the disconnect loop walks them as if they were node interfaces
+        owned = []
+        if kind == 'remove_component':
+            for c in g.nb(a[0], 'has', COMP):
+                if g.name(c) == a[1]:
+                    for sv in g.nb(c, 'has', NS):
+                        owned += ifs_of_ns(sv)
+        else:
+            for n in g.ids(NODE):
+                if g.name(n) == a[0]:
+                    owned += ifs_of_node(n)
+        if any(g.typ(i) == 'ServicePort' for i in owned):
+            out.append('owned-serviceport')
     if kind in ('connect', 'add_ns', 'add_pm'):
         # connect_interface derives the names of the service port and of the link from <owner node>-<interface>
         def owner_name(i):
